@@ -229,6 +229,27 @@ def gen_case(rng):
     return case
 
 
+def gen_neutral_case(rng):
+    """aimed: a calendar combined with the NUMBER that is neutral for the operator (x * 1, x / 1, x + 0, x - 0, ...) is still
+    a combinator with a constant operand: on a date where the calendar has no information the constant alone answers"""
+    bounds = []
+    inner = gen_leaf(rng, bounds)
+    while not bounds:
+        bounds = []
+        inner = gen_leaf(rng, bounds)
+    if rng.random() < 0.3:
+        inner = ['binc', rng.choice(OPS), inner, gen_leaf(rng, bounds)]
+    op = rng.choice(['mul', 'div', 'mul', 'div', 'add', 'sub', 'or'])
+    num = rng.choice([['i', 1], ['f', (1.0).hex()]]) if op in ('mul', 'div') else rng.choice([['i', 0], ['f', (0.0).hex()], ['i', 1]])
+    expr = ['binn', op, inner, num]
+    if rng.random() < 0.3:
+        expr = ['binn', rng.choice(['mul', 'div']), expr, rng.choice([['i', 1], ['f', (1.0).hex()], ['i', 2]])]
+    evals = [gen_time(rng, bounds) for _ in range(rng.randint(5, 9))]
+    units = [gen_time(rng, bounds) for _ in range(rng.randint(2, 4))]
+    search = [[gen_time(rng, bounds), rng.choice([1, -1]), rng.choice([2, 7, 30])] for _ in range(2)]
+    return {'expr': expr, 'evals': evals, 'units': units, 'search': search}
+
+
 CORPUS = [
     # witnesses of F20 (defects repaired by fix commits) and boundary cases; run first on every invocation
     {'expr': ['wdays', BASE + 5 * DAY, BASE, [0, 1], ['i', 8]], 'evals': [BASE], 'units': [BASE], 'search': []},
@@ -349,6 +370,9 @@ def evaluate(ctx, cases):
 def run(ctx):
     n = 600 if ctx.tier == 'quick' else 6000
     cases = list(CORPUS) + [gen_case(ctx.rng) for _ in range(n)]
+    import random as _random
+    rng2 = _random.Random('C17/neutral-number/%s' % ctx.seed)
+    cases += [gen_neutral_case(rng2) for _ in range(n // 20)]
     obs, codes = evaluate(ctx, cases)
     distinct = set()
     dist = {'rejected': 0, 'built': 0, 'zero_division': 0, 'search_found': 0, 'search_failed': 0, 'edited_in_place_and_asked_again': 0}
